@@ -1,6 +1,7 @@
 import IslaVerif.Model.Sexp
 import IslaVerif.Driver.C04
 import IslaVerif.Driver.C09
+import IslaVerif.Driver.C10
 import IslaVerif.Driver.C16
 namespace IslaVerif.Driver
 open IslaVerif
@@ -9,6 +10,7 @@ def dispatch : Sexp → Sexp
   | .list (.atom "ping" :: rest) => .list (.atom "pong" :: rest)
   | .list (.atom "c04" :: rest) => C04.handle rest
   | .list (.atom "c09" :: rest) => C09.handle rest
+  | .list (.atom "c10" :: rest) => C10.handle rest
   | .list (.atom "c16" :: rest) => C16.handle rest
   | _ => .atom "bad-request"
 
